@@ -58,7 +58,9 @@ FirstSetter(order, sets, k) ==
 
 -----------------------------------------------------------------------------
 (* 3. references *)
-MustLoad(kind) == kind = "ok"
+(* "ok-split": the same valid configuration with its sections spread over included files (references resolve across files);  *)
+(* "dup-cert-include" / "dup-cert-glob": the second certificate of the same id sits in another file of the tree                   *)
+MustLoad(kind) == kind \in {"ok", "ok-split"}
 
 -----------------------------------------------------------------------------
 Judge(pt) ==
@@ -78,7 +80,8 @@ Evaluate(pt) == /\ point' = pt /\ phase' = "done" /\ bad' = Judge(pt)
 (* Model checking: the whole bounded domain, with the model of the code as observer.          *)
 Settings == {"renew_delay", "random_early_renew", "file_name_format", "directory"}
 B3 == [cert : BOOLEAN, endpoint : BOOLEAN, global : BOOLEAN]
-RefKinds == {"ok", "endpoint", "account", "hook", "account-hook", "group-member", "rate-limit", "dup-cert"}
+RefKinds == {"ok", "ok-split", "endpoint", "account", "hook", "account-hook", "group-member", "rate-limit", "dup-cert",
+             "dup-cert-include", "dup-cert-glob"}
 
 CodeEffective(g, sets) ==
     IF "GlobalFirstWins" \in Deviations THEN FirstSetter(LoadOrder(g), sets, 1) ELSE EffectiveFrom(g, sets)
